@@ -10,6 +10,7 @@ pub mod c05;
 pub mod c06;
 pub mod c07;
 pub mod c08;
+pub mod c09;
 pub mod c10;
 pub mod c11;
 pub mod c12;
@@ -39,6 +40,7 @@ pub fn lookup(id: &str) -> Option<PropDef> {
         "C08" => Some(("C08", c08::TITLE, c08::parts(), c08::RULE, c08::assumptions())),
         "C11" => Some(("C11", c11::TITLE, c11::parts(), c11::RULE, c11::assumptions())),
         "C10" => Some(("C10", c10::TITLE, c10::parts(), c10::RULE, c10::assumptions())),
+        "C09" => Some(("C09", c09::TITLE, c09::parts(), c09::RULE, c09::assumptions())),
         "C12" => Some(("C12", c12::TITLE, c12::parts(), c12::RULE, c12::assumptions())),
         "C13" => Some(("C13", c13::TITLE, c13::parts(), c13::RULE, c13::assumptions())),
         "C15" => Some(("C15", c15::TITLE, c15::parts(), c15::RULE, c15::assumptions())),
